@@ -75,6 +75,11 @@ def encKey : Option Nat → Nat
 /-- `size--` on a `size_t` -/
 def decWrap (n : Nat) : Nat := if n = 0 then SIZE_MOD - 1 else n - 1
 
+/-- `size--` executed `n` times -/
+def decWrapN (s : Nat) : Nat → Nat
+  | 0 => s
+  | n + 1 => decWrapN (decWrap s) n
+
 /-- `round_pow_two` (32-bit variant: `ARCH_64` is not defined in this build) -/
 def roundPowTwo (n : Nat) : Nat :=
   if n ≥ Gen.MAX_POW_TWO then Gen.MAX_POW_TWO else
@@ -204,7 +209,7 @@ def removeAll (t : HashTable) (m : Mem) : HashTable × Mem :=
   let m := m.check (t.capacity ≤ t.buckets.length)
   let n := t.walk.length
   ({ t with buckets := (t.buckets.take t.capacity).map (fun _ => []) ++ t.buckets.drop t.capacity,
-            size := (t.size + SIZE_MOD - n % SIZE_MOD) % SIZE_MOD }, freeN m n)
+            size := decWrapN t.size n }, freeN m n)
 
 /-- `cc_hashtable_foreach_key`: the keys handed to the callback, in order -/
 def foreachKey (t : HashTable) (m : Mem) : List (Option Nat) × Mem :=
